@@ -78,7 +78,11 @@ let () =
     | [_; v] -> let v = getL v in { model = ok_list (reverse v); spec = ok_list (List.rev v); dom = true }
     | _ -> failwith "reverse");
   register "argsort" (fun a -> match a with
-    | [_; v] -> let v = getL v in { model = ok_list (argsort_z v); spec = ok_list (np_argsort v); dom = true }
+    | [_; v] -> let v = getL v in let distinct = (List.length (List.sort_uniq compare v) = List.length v) in
+        { model = ok_list (argsort_z v); spec = (if distinct then ok_list (np_argsort v) else unspec);
+          (* only distinct keys are judged: moveaxis sorts distinct destinations, and then the sorting permutation is unique;
+             the order of equal keys (stability) is not part of C03 *)
+          dom = distinct }
     | _ -> failwith "argsort");
   register "normalize_axis" (fun a -> match a with
     | [I ax; I nd] ->
